@@ -1,7 +1,7 @@
 SPECIFICATION Spec
 CONSTANTS
   K = 2
-  Variant = "fixed"
+  Variant = {}
   Emit = TRUE
 INVARIANTS EmitInv
 CHECK_DEADLOCK FALSE
